@@ -182,6 +182,11 @@ func (calc *convexHullCalculator) reduce(inputPts []float64) []float64 {
 		reducedSet.Insert(polyPts[i : i+calc.stride])
 	}
 
+	// The point-in-ring test requires a closed ring (first point == last point).
+	if !internal.Equal(polyPts, 0, polyPts, len(polyPts)-calc.stride) {
+		polyPts = append(polyPts, polyPts[:calc.stride]...)
+	}
+
 	/**
 	 * Add all unique points not in the interior poly.
 	 * CGAlgorithms.isPointInRing is not defined for points actually on the ring,
